@@ -36,6 +36,7 @@ package md4
 
 //@ func (*digest).Write
 //@ props C14
+//@ reindex
 //@ requires dinv(d) && ref(p) != ref(d.x[:])
 //@ modifies d.x
 //@ modifies d.nx
